@@ -28,6 +28,26 @@ def cases(seed, tier):
     rng = np.random.default_rng([seed, 8])
     for i in range(n):
         yield {"family": FAMS[i % 7], "form": FORMS[(i // 7) % len(FORMS)], "sub": int(rng.integers(0, 2**31))}
+    for i in range(3 if tier == "quick" else 12):
+        yield {"family": "big", "form": "big", "sub": int(rng.integers(0, 2**31)), "first": i == 0, "cap": 2 ** 21 + 1 if tier == "quick" else None}
+
+
+def run_big(case):
+    """long arrays (a million to a few million pairs): every separation function and unit option must give, element
+    for element, what it gives on short windows of the same arrays"""
+    import esutil.coords as co
+    rng = np.random.default_rng(case["sub"])
+    n = gen.big_size(rng, cap=case.get("cap"), first=case.get("first", False))
+    ra1, ra2 = rng.uniform(0, 360, size=n), rng.uniform(0, 360, size=n)
+    dec1, dec2 = np.degrees(np.arcsin(rng.uniform(-1, 1, size=n))), np.degrees(np.arcsin(rng.uniform(-1, 1, size=n)))
+    win = gen.windows(rng, n)
+    COL.sample({"family": "big", "n": n, "windows": len(win)}, limit=4)
+    units = [["deg", "deg"], ["deg", "rad"], ["rad", "deg"], ["rad", "rad"]][int(rng.integers(0, 4))]
+    arrs = [np.radians(a) if units[0] == "rad" else a for a in (ra1, dec1, ra2, dec2)]
+    probe.big_vs_windows("C08.relations", "sphdist", co.sphdist, arrs, win, kwargs={"units": units})
+    probe.big_vs_windows("C08.relations", "gcirc", co.gcirc, [ra1, dec1, ra2, dec2], win)
+    # one point against a long array
+    probe.big_vs_windows("C08.relations", "sphdist(point, array)", lambda a, b: co.sphdist(33.0, -12.0, a, b), [ra2, dec2], win)
 
 
 def offset_point(ra, dec, s_deg, pa_deg):
@@ -218,6 +238,8 @@ def _rel(name, ok, what, wit):
 
 
 def run_case(case):
+    if case["family"] == "big":
+        return run_big(case)
     import esutil.coords as co
     rng = np.random.default_rng(case["sub"] + 1)
     ra1, dec1, ra2, dec2 = make(case)
